@@ -254,6 +254,13 @@ macro "round_tail" re:term:max q:term:max dur:term:max : tactic =>
           | some k => simp [hf2]
           | none => cases hn2 : s2.next <;> simp [hf2, hn2]))
 
+/-- how a round of the loop may end; `continue` and reaching the end of the loop body are the same thing
+    for the loop -/
+def RoundEnds (s2 : St) (fl : Flow ErrKind Bool) : Prop :=
+  match s2.failed with
+  | some k => fl = Flow.raise k
+  | none => if s2.next.isSome then (fl = Flow.cont ∨ fl = Flow.next) else fl = Flow.brk
+
 theorem fail_of_failed (s : St) (k : ErrKind) (h : s.failed = some k) : s.fail k = s := by
   simp [St.fail, h]
 
